@@ -270,6 +270,14 @@ def parseRole : String → Option Role
   | "ul" => some .ul
   | _ => none
 
+/-- `impl FromStr for ColorDepth` (src/encoder.rs): ASCII lower-casing, then exactly the documented spellings -/
+def colorDepthFromStr (s : String) : Option Depth :=
+  let lower := String.ofList (s.toList.map fun c => if 'A' ≤ c ∧ c ≤ 'Z' then Char.ofNat (c.toNat + 32) else c)
+  if lower == "truecolor" || lower == "24" then some .trueColor
+  else if lower == "256" || lower == "8" then some .eightBit
+  else if lower == "gray" || lower == "2" then some .gray
+  else none
+
 def parseDepth : String → Option Depth
   | "true" => some .trueColor
   | "8bit" => some .eightBit
@@ -316,6 +324,7 @@ def nonEmptyHex (cs : List Char) : String := if cs.isEmpty then "-" else String.
   `FaceModify` setting the three colours (and a straight underline if `1`)
 * `probe <r> <g> <b>` → `probe` iff this is the model's true-colour probe colour; `probe-in-palette <r> <g> <b>` →
   `outside` or `entry N` (the decoder's palette)
+* `depth-parse <hex of a UTF-8 string>` → `true` | `8bit` | `gray` | `error` (`ColorDepth::from_str`)
 * `idx8 <hex of r g b triples>` → hex of the palette indices
 * `row8 <r> <g> <b values to skip, hex>` → hex of the palette indices of `(r, g, b)` for every other `b`
 * `graylv <l0,l1,…>` → one digit per luma: the index chosen among the four levels
@@ -352,6 +361,16 @@ def handle : List String → String
       | none => "outside"
       | some i => s!"entry {i}"
     | _, _, _ => "bad-op"
+  | ["depth-parse", h] =>
+    match unhex h with
+    | some bs => match String.fromUTF8? (ByteArray.mk bs.toArray) with
+      | some text => match colorDepthFromStr text with
+        | some .trueColor => "true"
+        | some .eightBit => "8bit"
+        | some .gray => "gray"
+        | none => "error"
+      | none => "bad-op"
+    | none => "bad-op"
   | ["idx8", h] =>
     match unhex h with
     | some bs => nonEmptyHex (idxTriples bs [])
